@@ -251,6 +251,43 @@ mut("c15-rejected-update-leaves-partial-effect", ["C15"], SMT,
     "            if len(node_updates) <= branch_point:\n                if node_updates:\n                    self._branch[0] = node_updates[0]\n                raise ValidationError(\"Updated node list is not deep enough\")",
     suite=None, note="a rejected (too short) update still patches the first sibling")
 
+mut("c18-hexary-delete-no-key-validation", ["C18"], HX,
+    "    def delete(self, key):\n        validate_is_bytes(key)\n\n        trie_key = bytes_to_nibbles(key)",
+    "    def delete(self, key):\n        trie_key = bytes_to_nibbles(key)",
+    suite=True, note="HexaryTrie.delete no longer validates its key")
+mut("c18-hexary-set-no-value-validation", ["C18"], HX,
+    "        validate_is_bytes(key)\n        validate_is_bytes(value)\n\n        trie_key = bytes_to_nibbles(key)",
+    "        validate_is_bytes(key)\n\n        trie_key = bytes_to_nibbles(key)",
+    suite=True, note="HexaryTrie.set no longer validates its value")
+mut("c18-at-root-allowed-on-pruning-trie", ["C18"], HX,
+    "        if self.is_pruning:\n            raise ValidationError(\"Cannot use trie snapshot while pruning\")\n",
+    "",
+    suite=None, note="at_root no longer refuses a pruning trie")
+mut("c18-smt-from-db-no-root-length-check", ["C18"], SMT,
+    "        validate_length(root_hash, 32)  # Must be a bytes32 hash\n",
+    "",
+    suite=True, note="from_db accepts a root hash of the wrong length")
+mut("c18-smt-key-size-zero-allowed", ["C18"], SMT,
+    "        if not 1 <= key_size <= 32:",
+    "        if not 0 <= key_size <= 32:",
+    suite=True, note="key size 0 is accepted")
+mut("c18-proof-update-no-key-length-check", ["C18"], SMT,
+    "        validate_is_bytes(key)\n        validate_length(key, self._key_size)\n\n        # Path diff",
+    "        validate_is_bytes(key)\n\n        # Path diff",
+    suite=True, note="SparseMerkleProof.update accepts a key of the wrong length")
+mut("c18-binary-get-branch-no-key-validation", ["C18"], BR,
+    "    validate_is_bytes(key)\n\n    return tuple(_get_branch(db, root_hash, encode_to_bin(key)))",
+    "    return tuple(_get_branch(db, root_hash, encode_to_bin(key)))",
+    suite=True, note="get_branch no longer validates its key")
+mut("c18-nibble-16-wraps", ["C18"], "trie/typing.py",
+    "                cls, (Nibble(maybe_nibble) for maybe_nibble in nibbles)",
+    "                cls, (Nibble(maybe_nibble % 16 if isinstance(maybe_nibble, int) else maybe_nibble) for maybe_nibble in nibbles)",
+    suite=False, note="out-of-range nibbles wrap around instead of being refused")
+mut("c18-smt-set-validates-after-first-write", ["C18"], SMT,
+    "        validate_is_bytes(key)\n        validate_length(key, self._key_size)\n        validate_is_bytes(value)\n\n        path = to_int(key)\n        node = value\n        _, branch = self._get(key)",
+    "        validate_is_bytes(key)\n        validate_length(key, self._key_size)\n\n        path = to_int(key)\n        node = value\n        _, branch = self._get(key)\n        self.db[b\"last-set\"] = key\n        validate_is_bytes(value)",
+    suite=True, note="the value is validated only after a bookkeeping write: a refused call changes the database")
+
 quiet("q-no-shortcircuit-delete-branch", ["C01", "C02", "C06"], HX,
       "        if encoded_sub_node == node[trie_key[0]]:\n            # If no change, (value already empty), short-circuit and skip any other work\n            return node\n\n        node[trie_key[0]] = encoded_sub_node",
       "        node[trie_key[0]] = encoded_sub_node",
